@@ -447,7 +447,7 @@ func (f *quorumFam) Gen(r *hx.Run) {
 	id := 0
 	if r.Thorough() {
 		// the modern rule N-(N-1)/3: main net with the header index pre-filled beyond height 20,000,000
-		for _, n := range []int{1, 3, 4, 7, 10} {
+		for _, n := range []int{4, 7} {
 			id++
 			r.Case(fmt.Sprintf("quorum-modern-%d-n%d", id, n))
 			g := &chainGen{r: r, w: &f.world}
